@@ -68,6 +68,45 @@ def isnn_body(msg, name):
         "isNN == status/reserved-bit format rules and plausibility envelope of the register (never raises)"
 
 
+def sample_same_payload(rng, fixed):
+    """native sampler for the frame-condition harness: for is60 a BDS 6,0 payload whose IAS matches its Mach number at
+    the altitude in the frame's own header (so the verdict depends on the header), and another header for the earlier
+    call; other registers: a plausible payload and a random other header"""
+    other_head = rng.choice(["10100", "10101", "10100"]) + "".join(rng.choice("01") for _ in range(27))
+    if fixed.get("name") != "is60":
+        return {"msg": sample_5060(rng, fixed)["msg"], "other_head": other_head}
+    from spec import alt_spec
+    while True:
+        ac = "".join(rng.choice("01") for _ in range(6)) + "0" + rng.choice("01") + "1" + "".join(rng.choice("01") for _ in range(4))
+        alt = alt_spec.alt13(ac)
+        if alt is not None and 0 <= alt <= 45000:
+            break
+    mach = rng.uniform(0.3, 0.95)
+    ias = _native_mach2cas(mach, alt * 0.3048) / 0.514444 + rng.uniform(-25, 25)
+    n_ias = max(1, min(1023, int(round(ias))))
+    n_mach = max(1, min(1023, int(round(mach / 0.004))))
+    mb = "0" * 12 + "1" + bits_of(n_ias, 10) + "1" + bits_of(n_mach, 10) + "0" * 22
+    head = "10100" + "".join(rng.choice("01") for _ in range(14)) + ac
+    par = "".join(rng.choice("01") for _ in range(24))
+    return {"msg": hex_of_bits(head + mb + par), "other_head": other_head}
+
+
+@harness("C12", sampler=sample_same_payload,
+         inputs={"msg": HexStr(28), "other_head": BinStr(32), "name": Choice(*ISNAMES)},
+         functions=[D + n[2:] + "." + n for n in ISNAMES], body_of=[D + n[2:] + "." + n for n in ISNAMES],
+         overrides={D + "17.cap17": cap17_only_bds20}, regions=["region_roll_sign"], idealised=True,
+         note="frame condition, added after seed C12-5 (a verdict cache keyed by DF and MB payload, while is60 also "
+              "depends on the altitude in the header): a register test is still right after an earlier call on a "
+              "reply with the same MB payload and parity under any other header")
+def isnn_is_a_function_of_the_message(msg, other_head, name):
+    bits = F.hexbits(msg)
+    other = hex_of_bits(other_head + bits[32:112])
+    f = getattr(MODS[name], name)
+    outcome(f, other)
+    assert outcome(f, msg) == outcome(getattr(bds_spec, name), msg), \
+        "isNN == its format rules and envelope also after an earlier call on the same payload under another header"
+
+
 def sample_infer(rng, fixed):
     """native sampler for the infer_body cases: payloads built to satisfy the case's register predicates with
     useful probability (status-gated fields cleared or given small values), first MB byte as the case asks"""
